@@ -184,3 +184,306 @@ Proof.
         by (symmetry; apply Z.ltb_lt; cbn [length]; lia).
       cbn [app]. reflexivity.
 Qed.
+
+(* ---- dump.go:128-150, the map loop ---- *)
+Lemma key_text k dk (Hk : key_ok k = true) (Hdoc : doc_of k = Some dk) :
+  exists ks, key_of k = Some ks /\ str_plain ks = true /\
+             (if is_str_kind k then [] else [DQ]) ++ jprint dk ++ (if is_str_kind k then [] else [DQ]) = jquote ks.
+Proof.
+  destruct k; cbn [key_ok] in Hk; try discriminate; cbn [doc_of] in Hdoc; inversion Hdoc; subst dk;
+    cbn [key_of is_str_kind jprint].
+  - exists (itoa z). split; [reflexivity|]. split; [apply itoa_plain|]. reflexivity.
+  - exists (utoa n). split; [reflexivity|]. split; [apply utoa_plain|]. reflexivity.
+  - exists s. split; [reflexivity|]. split; [exact Hk|]. cbn [app]. now rewrite app_nil_r.
+Qed.
+
+Lemma entries_ok n (H2 : kv_at n) : forall es len i,
+  forallb (fun e => key_ok (fst e) && ok_val (snd e)) es = true ->
+  Forall (fun e => (depth (fst e) <= n + 1)%nat /\ (depth (snd e) <= n + 1)%nat) es ->
+  (i + length es = len)%nat ->
+  exists ms, entries_of doc_of es = Some ms /\
+             forallb (fun kv => str_plain (fst kv) && jwfb (snd kv)) ms = true /\
+             entries_from (loop_kv n) len i es = Ok (print_members jprint ms).
+Proof.
+  induction es as [|[k x] rest IH]; intros len i Hok Hd Hlen.
+  - exists []. repeat split; reflexivity.
+  - cbn [forallb fst snd] in Hok. apply andb_prop in Hok as [Hkx Hr]. apply andb_prop in Hkx as [Hk Hx].
+    inversion Hd as [|? ? [Hdk Hdx] Hdr]; subst. cbn [fst snd] in Hdk, Hdx.
+    destruct (H2 k (key_ok_val _ Hk) Hdk) as (dk & [Hdock _] & Hrunk).
+    destruct (H2 x Hx Hdx) as (d & [Hdoc Hwf] & Hrun).
+    destruct (key_text k dk Hk Hdock) as (ks & Hks & Hplain & Htext).
+    destruct (IH (i + length ((k, x) :: rest))%nat (S i) Hr Hdr) as (ms & Hms & Hwfs & Hruns); [cbn [length]; lia|].
+    cbn [entries_of entries_from]. rewrite Hks, Hdoc, Hms.
+    exists ((ks, d) :: ms). split; [reflexivity|].
+    split; [cbn [forallb fst snd]; now rewrite Hplain, Hwf, Hwfs|].
+    pose proof (Hrunk [] false false eq_refl) as Hrk. pose proof (Hrun [] false false eq_refl) as Hrx.
+    cbn [pre_of app] in Hrk, Hrx.
+    nrm. rewrite Hrk. cbn [bind]. rewrite Hrx. cbn [bind]. rewrite Hruns. cbn [bind print_members].
+    f_equal. rewrite <- Htext. rewrite <- !app_assoc. f_equal. f_equal. f_equal.
+    cbn [app]. f_equal. f_equal.
+    destruct rest as [|[k' y] rest'].
+    + cbn [entries_of] in Hms. inversion Hms; subst ms.
+      replace (Z.of_nat i <? Z.of_nat (i + length [(k, x)]) - 1)%Z with false
+        by (symmetry; apply Z.ltb_ge; cbn [length]; lia).
+      reflexivity.
+    + cbn [entries_of] in Hms. destruct (key_of k'); [|discriminate]. destruct (doc_of y); [|discriminate].
+      destruct (entries_of doc_of rest'); [|discriminate]. inversion Hms; subst ms.
+      replace (Z.of_nat i <? Z.of_nat (i + length ((k, x) :: (k', y) :: rest')) - 1)%Z with true
+        by (symmetry; apply Z.ltb_lt; cbn [length]; lia).
+      reflexivity.
+Qed.
+
+(* ---- dump.go:56-67, the field loop from index 1 with its needAddComma flag ---- *)
+Definition field_dom (f : finfo * val) : bool :=
+  negb (fanon (fst f)) && negb (ftime (fst f))
+  && Bool.eqb (fexported (fst f)) (ascii_capital_initial (fname (fst f)))
+  && (if fexported (fst f) then str_plain (fname (fst f)) && ok_val (snd f) else true).
+
+Definition lead (need : bool) (ms : list (str * jdoc)) : str :=
+  match ms with [] => [] | _ => if need then [44] else [] end.
+
+Lemma field_dom_inv sf fv : field_dom (sf, fv) = true ->
+  ftime sf = false /\ is_exported (fname sf) = fexported sf /\
+  (fexported sf = true -> str_plain (fname sf) = true /\ ok_val fv = true).
+Proof.
+  unfold field_dom. cbn [fst snd]. intros H.
+  apply andb_prop in H as [H H4]. apply andb_prop in H as [H H3]. apply andb_prop in H as [_ H2].
+  split; [now destruct (ftime sf)|]. split.
+  - rewrite is_exported_spec. apply Bool.eqb_prop in H3. now rewrite H3.
+  - intros He. rewrite He in H4. now apply andb_prop in H4.
+Qed.
+
+Lemma fields_ok n (H2 : kv_at n) : forall fs need,
+  forallb field_dom fs = true -> Forall (fun f => (depth (snd f) <= n + 1)%nat) fs ->
+  exists ms, members_of doc_of fs = Some ms /\
+             forallb (fun kv => str_plain (fst kv) && jwfb (snd kv)) ms = true /\
+             fields_from1 (loop_kv n) need fs = Ok (lead need ms ++ print_members jprint ms).
+Proof.
+  induction fs as [|[sf fv] rest IH]; intros need Hok Hd.
+  - exists []. repeat split; reflexivity.
+  - cbn [forallb] in Hok. apply andb_prop in Hok as [Hf Hr].
+    inversion Hd as [|? ? Hdf Hdr]; subst. cbn [snd] in Hdf.
+    destruct (field_dom_inv _ _ Hf) as (Ht & Hexp & Hin).
+    cbn [members_of fields_from1]. rewrite Hexp.
+    destruct (fexported sf) eqn:Ee; cbn [negb].
+    + destruct (Hin eq_refl) as [Hname Hv].
+      destruct (H2 fv Hv Hdf) as (d & [Hdoc Hwf] & Hrun).
+      destruct (IH true Hr Hdr) as (ms & Hms & Hwfs & Hruns).
+      rewrite Hdoc, Hms. exists ((fname sf, d) :: ms). split; [reflexivity|].
+      split; [cbn [forallb fst snd]; now rewrite Hname, Hwf, Hwfs|].
+      assert (Hnt : (str_eqb (fname sf) TIME_NAME && ftime sf) = false) by (rewrite Ht; apply andb_false_r).
+      pose proof (Hrun (fname sf) (ftime sf) true Hnt) as Hr1. cbn [pre_of] in Hr1.
+      nrm. rewrite Hr1. cbn [bind]. rewrite Hruns. cbn [bind print_members lead].
+      f_equal. f_equal. unfold quoted, jquote, DQ. rewrite <- !app_assoc. cbn [app].
+      f_equal. f_equal. f_equal. f_equal.
+      destruct ms; reflexivity.
+    + exact (IH need Hr Hdr).
+Qed.
+
+(* ---- dump.go:25-70 on a struct (directly or behind one pointer) ---- *)
+Lemma struct_ok n (H2 : kv_at n) name fs :
+  ok_val (VStruct name fs) = true -> Forall (fun f => (depth (snd f) <= n + 1)%nat) fs ->
+  exists d, doc_ok (VStruct name fs) d /\
+            forall sl, handle_body (loop_kv n) (VStruct name fs) sl = Ok (jprint d) /\
+                       handle_body (loop_kv n) (VPtr (VStruct name fs)) sl = Ok (jprint d).
+Proof.
+  intros Hok Hd. cbn [ok_val] in Hok. change (forallb field_dom fs = true) in Hok.
+  unfold doc_ok. cbn [doc_of].
+  destruct fs as [|[sf0 fv0] rest].
+  - exists (JObj []). split; [split; reflexivity|]. intros sl. split; reflexivity.
+  - assert (Hok' := Hok). cbn [forallb] in Hok'. apply andb_prop in Hok' as [Hf Hr].
+    inversion Hd as [|? ? Hdf Hdr]; subst. cbn [snd] in Hdf.
+    destruct (field_dom_inv _ _ Hf) as (Ht & Hexp & Hin).
+    assert (Hbody : forall sl, handle_body (loop_kv n) (VPtr (VStruct name ((sf0, fv0) :: rest))) sl
+                               = handle_body (loop_kv n) (VStruct name ((sf0, fv0) :: rest)) sl) by reflexivity.
+    cbn [members_of].
+    destruct (fexported sf0) eqn:Ee.
+    + destruct (Hin eq_refl) as [Hname Hv].
+      destruct (H2 fv0 Hv Hdf) as (d & [Hdoc Hwf] & Hrun).
+      destruct (fields_ok n H2 rest true Hr Hdr) as (ms & Hms & Hwfs & Hruns).
+      rewrite Hdoc, Hms. exists (JObj ((fname sf0, d) :: ms)).
+      split; [split; [reflexivity|cbn [jwfb forallb fst snd]; now rewrite Hname, Hwf, Hwfs]|].
+      intros sl. rewrite Hbody.
+      match goal with |- ?A /\ _ => cut A; [intros HA; split; exact HA|] end.
+      unfold handle_body. cbn [indirect is_valid negb]. rewrite Hexp.
+      assert (Hnt : (str_eqb (fname sf0) TIME_NAME && ftime sf0) = false) by (rewrite Ht; apply andb_false_r).
+      pose proof (Hrun (fname sf0) (ftime sf0) true Hnt) as Hr1. cbn [pre_of] in Hr1.
+      nrm. rewrite Hr1. cbn [bind fst snd]. rewrite Hruns. cbn [bind jprint print_members lead].
+      destruct ms as [|m ms']; unfold quoted, jquote, DQ; cbn [lead print_members];
+        rewrite <- ?app_assoc; cbn [app]; rewrite <- ?app_assoc; cbn [app]; reflexivity.
+    + destruct (fields_ok n H2 rest false Hr Hdr) as (ms & Hms & Hwfs & Hruns).
+      rewrite Hms. exists (JObj ms).
+      split; [split; [reflexivity|exact Hwfs]|].
+      intros sl. rewrite Hbody.
+      match goal with |- ?A /\ _ => cut A; [intros HA; split; exact HA|] end.
+      unfold handle_body. cbn [indirect is_valid negb]. rewrite Hexp.
+      cbn [bind fst snd]. nrm. rewrite Hruns. cbn [bind jprint app].
+      destruct ms; reflexivity.
+Qed.
+
+(* ---- the three statements step together ---- *)
+Lemma ok_top v : ok_val v = true ->
+  match v with VNilPtr | VPtr _ | VStruct _ _ => top_shape v = true | _ => True end.
+Proof.
+  destruct v; cbn [ok_val top_shape]; intros H; try exact I; try reflexivity.
+  now apply andb_prop in H as [H _].
+Qed.
+
+Lemma kv_step n (H1 : elem_at n) (H2 : kv_at n) (H3 : top_at n) : kv_at (S n).
+Proof.
+  intros v Hok Hd.
+  assert (Hvia_top : top_shape v = true -> exists d, doc_ok v d /\
+            forall name t need, (str_eqb name TIME_NAME && t) = false ->
+              (a <- handle n v false ;; Ok (pre_of need name ++ a)) = Ok (pre_of need name ++ jprint d)).
+  { intros Hts. destruct (H3 v Hok Hts) as (d & Hdoc & Hrun); [lia|].
+    exists d. split; [exact Hdoc|]. intros name t need _. nrm. rewrite Hrun. reflexivity. }
+  destruct v as [|b|z|u|is32 repr|s| |x|bytes isnil vs|vs|isnil es|sname fs|inner|];
+    cbn [ok_val] in Hok; try discriminate.
+  - exists (JStr (if b then s2b "true" else s2b "false")).
+    split; [split; [reflexivity|destruct b; reflexivity]|].
+    intros name t need Hnt. cbn [loop_kv]. unfold kv_body. rewrite Hnt. reflexivity.
+  - exists (JNum (itoa z)). split; [split; [reflexivity|apply jnum_ok_itoa]|].
+    intros name t need Hnt. cbn [loop_kv]. unfold kv_body. rewrite Hnt. reflexivity.
+  - exists (JNum (utoa u)). split; [split; [reflexivity|apply jnum_ok_utoa]|].
+    intros name t need Hnt. cbn [loop_kv]. unfold kv_body. rewrite Hnt. reflexivity.
+  - exists (JNum repr). split; [split; [reflexivity|exact Hok]|].
+    intros name t need Hnt. cbn [loop_kv]. unfold kv_body. rewrite Hnt. reflexivity.
+  - exists (JStr s). split; [split; [reflexivity|exact Hok]|].
+    intros name t need Hnt. cbn [loop_kv]. unfold kv_body. rewrite Hnt. reflexivity.
+  - destruct (Hvia_top eq_refl) as (d & Hdoc & Hrun). exists d. split; [exact Hdoc|].
+    intros name t need Hnt. cbn [loop_kv]. unfold kv_body. rewrite Hnt. exact (Hrun name t need Hnt).
+  - assert (Hts : top_shape (VPtr x) = true) by (cbn [top_shape]; now apply andb_prop in Hok as [Hs _]).
+    destruct (Hvia_top Hts) as (d & Hdoc & Hrun). exists d. split; [exact Hdoc|].
+    intros name t need Hnt. cbn [loop_kv]. unfold kv_body. rewrite Hnt. exact (Hrun name t need Hnt).
+  - apply andb_prop in Hok as [Hb Hvs]. apply andb_prop in Hb as [Hb _].
+    destruct bytes; [discriminate|]. cbn [depth] in Hd.
+    destruct (elems_ok n H1 vs (length vs) 0%nat Hvs) as (ds & Hds & Hwf & Hrun);
+      [apply depth_elems; lia|reflexivity|].
+    exists (JArr ds). split; [split; [cbn [doc_of]; rewrite Hds; reflexivity|exact Hwf]|].
+    intros name t need Hnt. cbn [loop_kv]. unfold kv_body. rewrite Hnt. nrm. rewrite Hrun. reflexivity.
+  - cbn [depth] in Hd.
+    destruct (elems_ok n H1 vs (length vs) 0%nat Hok) as (ds & Hds & Hwf & Hrun);
+      [apply depth_elems; lia|reflexivity|].
+    exists (JArr ds). split; [split; [cbn [doc_of]; rewrite Hds; reflexivity|exact Hwf]|].
+    intros name t need Hnt. cbn [loop_kv]. unfold kv_body. rewrite Hnt. nrm. rewrite Hrun. reflexivity.
+  - apply andb_prop in Hok as [_ Hes]. cbn [depth] in Hd.
+    destruct (entries_ok n H2 es (length es) 0%nat Hes) as (ms & Hms & Hwf & Hrun);
+      [apply depth_entries; lia|reflexivity|].
+    exists (JObj ms). split; [split; [cbn [doc_of]; rewrite Hms; reflexivity|exact Hwf]|].
+    intros name t need Hnt. cbn [loop_kv]. unfold kv_body. rewrite Hnt. nrm. rewrite Hrun. reflexivity.
+  - destruct (Hvia_top eq_refl) as (d & Hdoc & Hrun). exists d. split; [exact Hdoc|].
+    intros name t need Hnt. cbn [loop_kv]. unfold kv_body. rewrite Hnt. exact (Hrun name t need Hnt).
+Qed.
+
+Lemma handle_struct_like n (H2 : kv_at n) v sl :
+  ok_val v = true -> top_shape v = true ->
+  (match v with VPtr x => depth x | _ => depth v end <= n + 4)%nat ->
+  exists d, doc_ok v d /\ handle (S n) v sl = Ok (jprint d).
+Proof.
+  intros Hok Hts Hd. cbn [handle].
+  destruct v as [|b|z|u|is32 repr|s| |x|bytes isnil vs|vs|isnil es|sname fs|inner|];
+    cbn [top_shape] in Hts; try discriminate.
+  - exists JNull. split; [split; reflexivity|reflexivity].
+  - destruct x as [| | | | | | | | | | |sname fs| |]; try discriminate.
+    cbn [ok_val is_struct andb] in Hok. cbn [depth] in Hd.
+    destruct (struct_ok n H2 sname fs Hok) as (d & Hdoc & Hrun); [apply depth_fields; lia|].
+    exists d. split; [exact Hdoc|]. apply (Hrun sl).
+  - cbn [depth] in Hd.
+    destruct (struct_ok n H2 sname fs Hok) as (d & Hdoc & Hrun); [apply depth_fields; lia|].
+    exists d. split; [exact Hdoc|]. apply (Hrun sl).
+Qed.
+
+Lemma top_step n (H2 : kv_at n) : top_at (S n).
+Proof.
+  intros v Hok Hts Hd. apply (handle_struct_like n H2); try assumption.
+  destruct v; cbn [depth] in *; lia.
+Qed.
+
+Lemma elem_step n (H2 : kv_at n) : elem_at (S n).
+Proof.
+  intros v Hok Hd.
+  assert (Hvia_kv : indirect v = v -> is_valid v = true -> is_struct v = false ->
+                    exists d, doc_ok v d /\ handle (S n) v true = Ok (jprint d)).
+  { intros Hi Hv Hs. destruct (H2 v Hok) as (d & Hdoc & Hrun); [lia|].
+    exists d. split; [exact Hdoc|]. cbn [handle]. unfold handle_body. rewrite Hi, Hv. cbn [negb].
+    pose proof (Hrun [] false false eq_refl) as Hr. cbn [pre_of app] in Hr.
+    destruct v; try discriminate; nrm; exact Hr. }
+  destruct v as [|b|z|u|is32 repr|s| |x|bytes isnil vs|vs|isnil es|sname fs|inner|];
+    try (apply Hvia_kv; reflexivity); try (cbn [ok_val] in Hok; discriminate).
+  - apply (handle_struct_like n H2); [assumption|reflexivity|cbn [depth]; lia].
+  - apply (handle_struct_like n H2); [assumption| |cbn [depth] in *; lia].
+    cbn [ok_val] in Hok. cbn [top_shape]. now apply andb_prop in Hok as [Hs _].
+  - apply (handle_struct_like n H2); [assumption|reflexivity|cbn [depth] in *; lia].
+Qed.
+
+Theorem all_at : forall n, elem_at n /\ kv_at n /\ top_at n.
+Proof.
+  induction n as [|n (H1 & H2 & H3)].
+  - repeat split; intros v Hok; intros; pose proof (depth_ge3 v); lia.
+  - split; [exact (elem_step n H2)|]. split; [exact (kv_step n H1 H2 H3)|exact (top_step n H2)].
+Qed.
+
+(* ================= C20 ================= *)
+
+Lemma dumpable_inv v : dumpable v = true -> top_shape v = true /\ ok_val v = true.
+Proof. unfold dumpable. intros H. now apply andb_prop in H. Qed.
+
+(* on the property's domain the value has a document, the dumper prints exactly that document
+   (compactly), the document is well-formed *)
+Theorem dump_is_doc_ex v fuel : dumpable v = true -> (depth v < fuel)%nat ->
+  exists d, doc_of v = Some d /\ jwfb d = true /\ dump fuel v = Ok (jprint d).
+Proof.
+  intros Hdom Hfuel. destruct (dumpable_inv v Hdom) as [Hts Hok].
+  destruct (all_at fuel) as (_ & _ & H3).
+  destruct (H3 v Hok Hts) as (d & [Hdoc Hwf] & Hrun); [lia|].
+  exists d. repeat split; assumption.
+Qed.
+
+Theorem dump_is_doc v fuel d : dumpable v = true -> (depth v < fuel)%nat -> doc_of v = Some d ->
+  dump fuel v = Ok (jprint d).
+Proof.
+  intros Hdom Hfuel Hdoc. destruct (dump_is_doc_ex v fuel Hdom Hfuel) as (d' & Hdoc' & _ & Hrun).
+  congruence.
+Qed.
+
+Theorem dumpable_has_doc v : dumpable v = true -> exists d, doc_of v = Some d /\ jwfb d = true.
+Proof.
+  intros Hdom. destruct (dump_is_doc_ex v (S (depth v)) Hdom (Nat.lt_succ_diag_r _)) as (d & Hdoc & Hwf & _).
+  exists d. split; assumption.
+Qed.
+
+(* hence the dump is RFC 8259 JSON, and parsing it gives back the document of the specification *)
+Theorem dump_wellformed v fuel : dumpable v = true -> (depth v < fuel)%nat ->
+  exists d out, doc_of v = Some d /\ dump fuel v = Ok out /\ jparse out = Some d /\ jvalidb out = true.
+Proof.
+  intros Hdom Hfuel. destruct (dump_is_doc_ex v fuel Hdom Hfuel) as (d & Hdoc & Hwf & Hrun).
+  exists d, (jprint d). repeat split; [exact Hdoc|exact Hrun|apply jparse_jprint; exact Hwf|apply jvalidb_jprint; exact Hwf].
+Qed.
+
+(* the fuel the runner passes is enough *)
+Corollary dump_never_out_of_fuel v : dumpable v = true ->
+  exists d, doc_of v = Some d /\ dump (S (depth v)) v = Ok (jprint d).
+Proof.
+  intros Hdom. destruct (dump_is_doc_ex v (S (depth v)) Hdom (Nat.lt_succ_diag_r _)) as (d & Hdoc & _ & Hrun).
+  exists d. split; assumption.
+Qed.
+
+(* ================= why the domain excludes []byte and non-ASCII capital initials ================= *)
+(* struct{ B []byte }{B: []byte{1,2}}: the standard encoder writes {"B":"AQI="}, the dumper {"B":[1,2]} *)
+Definition byte_slice_witness : val :=
+  VStruct (s2b "T") [(mkf (s2b "B") true false false, VSlice true false [VUint 1; VUint 2])].
+
+Lemma byte_slice_differs :
+  doc_of byte_slice_witness = Some (JObj [(s2b "B", JStr (s2b "AQI="))]) /\
+  dump (S (depth byte_slice_witness)) byte_slice_witness = Ok (s2b "{""B"":[1,2]}").
+Proof. split; vm_compute; reflexivity. Qed.
+
+(* struct{ Äb int }{3}: the field is exported (Go, encoding/json) but IsExported looks at the first
+   byte only (0xC3), so the dumper omits it *)
+Definition nonascii_field_witness : val :=
+  VStruct (s2b "T") [(mkf [195; 132; 98] true false false, VInt 3)].
+
+Lemma nonascii_field_differs :
+  doc_of nonascii_field_witness = Some (JObj [([195; 132; 98], JNum (s2b "3"))]) /\
+  dump (S (depth nonascii_field_witness)) nonascii_field_witness = Ok (s2b "{}").
+Proof. split; vm_compute; reflexivity. Qed.
